@@ -49,6 +49,12 @@ def run(ctx):
     _groupby_max(ctx, prog.func("mokapot.utils.groupby_max"))
     _confidence(ctx, prog.func(
         "mokapot.confidence.LinearConfidence._assign_confidence"))
+    # which path the picked-protein step takes (decoys in the database or
+    # mirrored from the targets) and what it pairs are decided by the
+    # Proteins object read_fasta builds: its maps, pairing and has_decoys
+    # flag are a clause of this property too (shared with C16b)
+    from .c16 import _read_fasta
+    _read_fasta(ctx, prog.func("mokapot.parsers.fasta.read_fasta"))
     reach = prog.reachable([PP + "picked_protein"])
     check_no_cross_call_state(
         ctx, "C15-no-cross-call-state",
